@@ -215,6 +215,36 @@ def make_program(ds, paths, variant, rng):
             arg = {'k': 'par', 'a': l} if byval else l
             main.append({'k': 'callsub', 'n': 'bump' + l['t'].lower(), 'pi': pidx[l['t']], 'args': [arg], 'form': 'call' if j % 2 else 'bare'})
         main += [pr(lv(ds, p)) for p in paths]
+    elif variant == 'recparam':
+        # whole records (variables and array elements) passed by reference: the callee touches
+        # several fields, repeatedly, and forwards the parameter
+        recs = [(i, d) for i, d in enumerate(ds, 1) if d['kind'] in ('rec', 'nrec', 'arec')]
+        if not recs:
+            return None
+        main = pre + decl_stmts(ds) + [{'k': 'let', 'lv': lv(ds, p), 'e': sentinel(lv(ds, p)['t'], j)} for j, p in enumerate(paths)]
+        procs = []
+        for i, d in recs:
+            fields = [p for p in paths if p[0] == i and (not p[1] or p[1] == [d['lo']] * d['rank'])]
+            def fl(p):
+                l = lv(ds, p)
+                return {'k': 'lv', 'n': 'p', 'ix': [], 'fl': l['fl'], 't': l['t']}
+            body = []
+            for rep in range(2):
+                for p in reversed(fields):
+                    body.append(pr(fl(p)))
+            for j, p in enumerate(fields):
+                body.append({'k': 'let', 'lv': fl(p), 'e': sentinel(fl(p)['t'], 30 + j)})
+                body.append(pr(fl(fields[-1])))
+            body.append({'k': 'if', 'arms': [{'c': {'k': 'bin', 'o': 'gt', 'l': {'k': 'lv', 'n': 'n%', 'ix': [], 'fl': [], 't': 'I'}, 'r': {'k': 'num', 't': 'I', 'v': 0}},
+                                              'body': [{'k': 'callsub', 'n': 'tch%d' % i, 'pi': len(procs) + 1,
+                                                        'args': [{'k': 'lv', 'n': 'p', 'ix': [], 'fl': [], 't': 'R'}, {'k': 'num', 't': 'I', 'v': 0}], 'form': 'call'}]}],
+                         'els': [], 'hasels': False})
+            for p in fields:
+                body.append(pr(fl(p)))
+            procs.append({'n': 'tch%d' % i, 'kind': 'sub', 'rt': '', 'params': [{'n': 'p', 't': 'R', 'rec': 'rt%d' % i}, {'n': 'n%', 't': 'I'}], 'statics': [], 'body': body})
+            arg = {'k': 'lv', 'n': 'd%d' % i, 'ix': [{'k': 'num', 't': 'I', 'v': d['lo']}] * d['rank'] if d['kind'] == 'arec' else [], 'fl': [], 't': 'R'}
+            main.append({'k': 'callsub', 'n': 'tch%d' % i, 'pi': len(procs), 'args': [arg, {'k': 'num', 't': 'I', 'v': 1}], 'form': 'bare'})
+        main += [pr(lv(ds, p)) for p in paths]
     else:
         raise ValueError(variant)
     prog = {'types': types, 'consts': [], 'shared': shared, 'main': gen.flatten(main), 'procs': procs}
@@ -321,7 +351,7 @@ def _run(ctx, work):
         paths = sorted((parse_path(k) for k in cells), key=lambda p: cells['<<%d, <<%s>>, %d>>' % (p[0], ', '.join(map(str, p[1])), p[2])])
         if len(paths) > 40:
             continue
-        variant = ['main', 'local', 'shared', 'param', 'main', 'static'][i % 6]
+        variant = ['main', 'local', 'shared', 'param', 'recparam', 'static', 'main'][i % 7]
         jobs.append((sc['ds'], paths, variant, ctx.seed * 1000 + i, cells))
     res = [x for x in par.pmap(_job, jobs, chunk=2) if x is not None]
     cases = []
@@ -369,7 +399,7 @@ def _run(ctx, work):
         'states': r.distinct + sum(v['steps'] for v in verdicts), 'transitions': r.generated + sum(v['steps'] for v in verdicts),
         'traces_validated_against_impl': sum(len(c['obs']) for c in cases),
         'layout_scenarios_model_checked': len(scen) + len(r3.printed), 'scenarios_run': len(res), 'layout_cell_comparisons': nlayout,
-        'verdicts': stats, 'variants': ['main', 'local', 'shared', 'param', 'static'],
+        'verdicts': stats, 'variants': ['main', 'local', 'shared', 'param', 'recparam', 'static'],
         'samples': [{'decls': cases[0]['rr']['ds'], 'program': cases[0]['text'][:1500]}] if cases else [],
     })
 
